@@ -581,6 +581,60 @@ def count_leaves(v):
     return 1
 
 
+def diff_path(t, a, b):
+    """kinds on the path from the root of type t to the first place where values a and b differ (None if equal)"""
+    if a == b:
+        return None
+    k = t["k"]
+    if a[0] != b[0]:
+        return [k]
+    if k in ("list", "fixed", "map"):
+        if len(a[1]) != len(b[1]):
+            return [k, "#len"]
+        et = t["t"] if k != "map" else {"k": "tuple", "ts": [t["key"], t["val"]]}
+        for x, y in zip(a[1], b[1]):
+            d = diff_path(et, x, y)
+            if d:
+                return [k] + d
+        return [k]
+    if k in ("tuple", "record"):
+        ts = t["ts"] if k == "tuple" else [f["t"] for f in t["fields"]]
+        if len(a[1]) != len(b[1]):
+            return [k]
+        for tt, x, y in zip(ts, a[1], b[1]):
+            d = diff_path(tt, x, y)
+            if d:
+                return [k] + d
+        return [k]
+    if k in ("option", "result", "variant"):
+        if a[1] != b[1]:
+            return [k, "#case"]
+        pt = t["t"] if k == "option" else ((t["ok"] if a[1] == 0 else t["err"]) if k == "result" else t["cases"][a[1]]["t"])
+        if pt and a[2] is not None and b[2] is not None:
+            d = diff_path(pt, a[2], b[2])
+            if d:
+                return [k] + d
+        return [k]
+    return [k]
+
+
+def class_of_path(path):
+    """stable class of a mismatch: the container kinds (list/fixed/map) above the differing leaf, products and sums
+    being transparent, then the leaf: `heap` for string/list/map contents and lengths, else the scalar kind"""
+    if not path:
+        return "?"
+    conts = [k for k in path[:-1] if k in ("list", "fixed", "map")]
+    leaf = path[-1]
+    if leaf == "#len":
+        conts = conts[:-1]
+        leaf = "heap"
+    elif leaf in ("string", "list", "map"):
+        leaf = "heap"
+    elif leaf == "#case":
+        leaf = "discriminant"
+    return "/".join(conts + [leaf])
+
+
 # ------------------------------------------------------------------------------------------ option sets
 class OptSet:
     """one configuration of the Rust generator (the quantifier of C05)"""
@@ -754,16 +808,18 @@ class Cg:
     # -- builder: an expression producing the value the script describes, in whatever rendering is expected
     def build(self, t):
         k = t["k"]
+        # NB every leaf goes through conv(): a named alias of a primitive (`type b = bool`) inside a top-borrowed
+        # tuple/option/result parameter is rendered as `&B` by the generator
         if k == "bool":
-            return "(S::next() != 0)"
+            return "conv(S::next() != 0)"
         if k in INTS:
-            return "(S::next() as %s)" % RUST_PRIM[k]
+            return "conv(S::next() as %s)" % RUST_PRIM[k]
         if k == "char":
-            return "S::ch()"
+            return "conv(S::ch())"
         if k == "f32":
-            return "f32::from_bits(S::next() as u32)"
+            return "conv(f32::from_bits(S::next() as u32))"
         if k == "f64":
-            return "f64::from_bits(S::next())"
+            return "conv(f64::from_bits(S::next()))"
         if k == "string":
             return "conv_str(S::bytes())"
         if k == "list":
@@ -1270,3 +1326,340 @@ class Guest:
 
 class GuestDied(Exception):
     pass
+
+
+# ------------------------------------------------------------------------------------------ one call, judged by the spec host
+def parse_events(s):
+    """-> list of ('A'|'F', ptr, size, align, untracked) | ('M', code) | ('E', code, ptr, size, align)"""
+    out = []
+    for tok in s.split(","):
+        if not tok:
+            continue
+        if tok == "OVERFLOW":
+            out.append(("E", 99, 0, 0, 0))
+        elif tok[0] == "M":
+            out.append(("M", int(tok[1:])))
+        elif tok[0] == "E":
+            a = tok[1:].split(":")
+            out.append(("E", int(a[0]), int(a[1]), int(a[2]), int(a[3])))
+        else:
+            u = tok.endswith("u")
+            a = tok[1:].rstrip("u").split(":")
+            out.append((tok[0], int(a[0]), int(a[1]), int(a[2]), u))
+    return out
+
+
+ERRNAMES = {1: "free of a pointer that is not a live block (double free or foreign pointer)", 2: "free with a size/alignment different from the allocation's",
+            3: "red zone next to a block overwritten (out-of-bounds write)", 4: "allocator table full", 99: "event log overflow"}
+
+
+def segs_str(writes):
+    return ";".join("%d:%s" % w for w in writes)
+
+
+class Finding:
+    """cat: value | memory | crash;  klass: stable class of the failing input (used in violation keys)"""
+    def __init__(self, cat, what, detail, klass=None):
+        self.cat, self.what, self.detail = cat, what, detail
+        self.klass = klass or what
+
+    def __repr__(self):
+        return "[%s] %s: %s" % (self.cat, self.klass, self.detail)
+
+
+def alloc_labels(o, t, v, flat_top):
+    """[( (size, align), class )] for every non-empty buffer the canonical ABI allocates when lowering v : t, in the
+    spec's order (buffer of a list before its elements).  Sizes come from the oracle's layout."""
+    out = []
+
+    def go(t, v, conts):
+        k = t["k"]
+        if k == "string":
+            if len(v[1]):
+                out.append(((len(v[1]), 1), "/".join(conts + ["heap"])))
+        elif k == "list":
+            sz, al, _ = o.layout(t["t"])
+            if len(v[1]) * sz:
+                out.append(((len(v[1]) * sz, al), "/".join(conts + ["heap"])))
+            for x in v[1]:
+                go(t["t"], x, conts + ["list"])
+        elif k == "map":
+            et = {"k": "tuple", "ts": [t["key"], t["val"]]}
+            sz, al, _ = o.layout(et)
+            if len(v[1]) * sz:
+                out.append(((len(v[1]) * sz, al), "/".join(conts + ["heap"])))
+            for e in v[1]:
+                go(t["key"], e[1][0], conts + ["map"])
+                go(t["val"], e[1][1], conts + ["map"])
+        elif k == "fixed":
+            for x in v[1]:
+                go(t["t"], x, conts + ["fixed"])
+        elif k == "tuple":
+            for tt, x in zip(t["ts"], v[1]):
+                go(tt, x, conts)
+        elif k == "record":
+            for f, x in zip(t["fields"], v[1]):
+                go(f["t"], x, conts)
+        elif k == "option":
+            if v[1] == 1:
+                go(t["t"], v[2], conts)
+        elif k == "result":
+            pt = t["ok"] if v[1] == 0 else t["err"]
+            if pt:
+                go(pt, v[2], conts)
+        elif k == "variant":
+            pt = t["cases"][v[1]]["t"]
+            if pt:
+                go(pt, v[2], conts)
+    go(t, v, [])
+    return out
+
+
+def label_blocks(blocks, labels):
+    """classes of the (size, align) blocks according to the labelled prediction (ambiguous sizes give a|b)"""
+    res = set()
+    for b in blocks:
+        c = sorted(set(l for sa, l in labels if sa == tuple(b)))
+        res.add("|".join(c) if c else "unpredicted(%d:%d)" % tuple(b))
+    return ",".join(sorted(res))
+
+
+def poison_segments(evs, start_marker, end_marker):
+    """blocks freed between two markers, as segments full of the allocator's free-poison 0xDD"""
+    segs, on = [], False
+    for e in evs:
+        if e[0] == "M":
+            if e[1] == start_marker:
+                on = True
+            elif e[1] == end_marker:
+                break
+        elif e[0] == "F" and on and e[2] > 0:
+            segs.append("%d:%s" % (e[1], "dd" * e[2]))
+    return segs
+
+
+class Runner:
+    """Drives one guest binary with the oracle as the host."""
+    def __init__(self, oracle, guest):
+        self.o, self.g = oracle, guest
+        self.stats = {"export_calls": 0, "import_calls": 0, "leaves_sent": 0, "leaves_received": 0, "host_buffers": 0, "guest_buffers": 0,
+                      "uaf_probes": 0}
+
+    def _live(self):
+        return self.g.live()[0]
+
+    def _mem_findings(self, events, where):
+        out = []
+        for e in events:
+            if e[0] == "E":
+                out.append(Finding("memory", "allocator", "%s: %s at %d (size %d align %d)" % (where, ERRNAMES.get(e[1], "?"), e[2], e[3], e[4]),
+                                   "allocator:%d:%s" % (e[1], where.replace(" ", "-"))))
+        return out
+
+    def _compare(self, F, where, t, sent, got, text):
+        if got is None:
+            F.append(Finding("value", where, "the host cannot lift it (trap); %s" % (text % (show(sent), "TRAP")), where + ":trap"))
+        elif canon(t, got) != canon(t, sent):
+            F.append(Finding("value", where, text % (show(sent), show(got)), where + ":" + class_of_path(diff_path(t, canon(t, sent), canon(t, got)))))
+
+    def export_call(self, mod, fm, args, ret):
+        """args: list of values (one per parameter), ret: value or None.  -> (findings, observation dict)"""
+        o, g = self.o, self.g
+        F = []
+        obs = {}
+        live0 = self._live()
+        flat, writes, given = [], [], []
+        pt, pv = (tuple_ty(fm.params), ("r", list(args))) if fm.params else (None, None)
+        if fm.params:
+            if fm.params_indirect:
+                size, align, _ = o.layout(pt)
+                reqs = [(size, align)] + o.allocs(pt, pv, "mem")
+                addrs = g.alloc(reqs)
+                _, writes, _ = o.lower(pt, pv, "mem", addrs[0], addrs[1:])
+                flat = [addrs[0]]
+            else:
+                reqs = o.allocs(pt, pv, "flat")
+                addrs = g.alloc(reqs)
+                flat, writes, _ = o.lower(pt, pv, "flat", 65536, addrs)
+            given = [(a, s, al) for a, (s, al) in zip(addrs, reqs)]
+        script = encode(fm.result, ret) if fm.result else []
+        retsize = o.layout(fm.result)[0] if (fm.result and fm.result_indirect) else 0
+        self.stats["export_calls"] += 1
+        self.stats["host_buffers"] += len(given)
+        self.stats["leaves_sent"] += sum(count_leaves(a) for a in args)
+        resp = g.ask("EXPORT %s %d %d %s %s %s" % (mod, fm.idx, retsize, ",".join(map(str, flat)), ",".join(map(str, script)), segs_str(writes)))
+        if resp is None or not resp.startswith("OK"):
+            F.append(Finding("crash", "guest-died", "export call: %s" % (g.proc.last_err if resp is None else resp), "crash:export"))
+            return F, obs
+        r = Guest.fields(resp)
+        obs["ret"] = int(r["ret"])
+        evs = parse_events(r.get("ev", ""))
+        obs["events"] = evs
+        if r.get("notes"):
+            F.append(Finding("value", "notes", r["notes"], "notes:" + r["notes"].split(";")[0]))
+        # -- what arrived in the Rust implementation
+        words = [int(x) for x in r["log"].split(",")] if r.get("log") else []
+        if fm.params:
+            try:
+                got = decode(pt, words)
+                self._compare(F, "export-param", pt, pv, got, "the host sent %s, the Rust implementation received %s")
+            except DecodeError as e:
+                F.append(Finding("value", "export-param", "observation log does not parse as the parameter types: %s (sent %s)" % (e, show(pv)), "export-param:log-unparseable"))
+        elif words:
+            F.append(Finding("value", "export-param", "log not empty for a function without parameters", "export-param:log-unparseable"))
+        # -- what the Rust implementation sent back
+        if fm.result:
+            self.stats["leaves_received"] += count_leaves(ret)
+            mode, src = ("mem", obs["ret"]) if fm.result_indirect else ("flat", str(obs["ret"]))
+            got = o.lift(fm.result, mode, src, r.get("segs", ""))
+            self._compare(F, "export-result", fm.result, ret, got, "Rust returned %s, the host received %s")
+            ps = poison_segments(evs, M_CALL_START, M_CALL_END)
+            if ps and fm.result_indirect:
+                self.stats["uaf_probes"] += 1
+                got2 = o.lift(fm.result, mode, src, ";".join(ps + [r.get("segs", "")]))   # later segments win: live memory over poison
+                if got2 != got:
+                    d = diff_path(fm.result, canon(fm.result, got), canon(fm.result, got2)) if (got is not None and got2 is not None) else None
+                    F.append(Finding("memory", "use-after-free", "the result image points into memory the guest freed before returning (lifting reads freed blocks): %s" % show(ret),
+                                     "use-after-free:export-result:" + (class_of_path(d) if d else "trap")))
+        # -- allocation ledger
+        F += self._mem_findings(evs, "export call")
+        allocd = {}
+        for e in evs:
+            if e[0] == "A":
+                allocd[e[1]] = (e[2], e[3])
+            elif e[0] == "F":
+                allocd.pop(e[1], None)
+        freed = set(e[1] for e in evs if e[0] == "F")
+        plabels = alloc_labels(o, pt, pv, not fm.params_indirect) if fm.params else []
+        for (a, s, al) in given:
+            if a not in freed:
+                F.append(Finding("memory", "host-buffer-not-taken", "parameter buffer %d:%d handed to the export was not released by the end of the call" % (s, al),
+                                 "host-buffer-not-taken:export-param:" + label_blocks([(s, al)], plabels)))
+        handed = sorted(allocd.values())
+        self.stats["guest_buffers"] += len(handed)
+        want = sorted(o.allocs(fm.result, ret, "mem" if fm.result_indirect else "flat")) if fm.result else []
+        rlabels = alloc_labels(o, fm.result, ret, not fm.result_indirect) if fm.result else []
+        if sorted(sa for sa, _ in rlabels) != want:
+            raise RuntimeError("engine: alloc_labels disagrees with the oracle: %s vs %s for %s" % (rlabels, want, show(ret)))
+        obs["handed"], obs["predicted"] = handed, want
+        if handed != want:
+            extra = [b for b in handed if b not in want] or handed
+            F.append(Finding("memory", "result-ledger", "guest allocations alive at return %s differ from the canonical ABI's prediction %s for result %s" % (
+                handed, want, show(ret) if ret else "-"), "result-ledger:" + label_blocks(extra, rlabels)))
+        if fm.has_post:
+            resp2 = g.ask("POST %s %d %d" % (mod, fm.idx, obs["ret"]))
+            if resp2 is None or not resp2.startswith("OK"):
+                F.append(Finding("crash", "guest-died", "post-return: %s" % (g.proc.last_err if resp2 is None else resp2), "crash:post-return"))
+                return F, obs
+            r2 = Guest.fields(resp2)
+            evs2 = parse_events(r2.get("ev", ""))
+            F += self._mem_findings(evs2, "post-return")
+            obs["post_events"] = evs2
+        live1 = self._live()
+        if live1 != live0:
+            leaked = sorted(set(live1) - set(live0))
+            gone = sorted(set(live0) - set(live1))
+            kind = "leak" if leaked else "over-free"
+            F.append(Finding("memory", kind, "after the call%s the guest heap differs: leaked %s, missing %s (result %s)" % (
+                " and post-return" if fm.has_post else " (no post-return function generated)", [(s, a) for _, s, a in leaked], [(s, a) for _, s, a in gone],
+                show(ret) if ret else "-"), "%s:export:%s" % (kind, label_blocks([(s, a) for _, s, a in (leaked or gone)], rlabels + plabels))))
+            obs["leaked"] = leaked
+        return F, obs
+
+    def import_call(self, mod, fm, args, ret):
+        o, g = self.o, self.g
+        F = []
+        obs = {}
+        live0 = self._live()
+        given, writes = [], []
+        mode, payload = "none", "0"
+        if fm.result:
+            if fm.result_indirect:
+                reqs = o.allocs(fm.result, ret, "mem")
+                addrs = g.alloc(reqs)
+                _, ws, _ = o.lower(fm.result, ret, "mem", 0, addrs)
+                assert ws[0][0] == 0
+                mode, payload = "mem", ws[0][1]
+                writes = ws[1:]
+                given = [(a, s, al) for a, (s, al) in zip(addrs, reqs)]
+            else:
+                flat, _, _ = o.lower(fm.result, ret, "flat", 65536, [])
+                mode, payload = "flat", str(flat[0])
+        script = []
+        for t, v in zip(fm.params, args):
+            encode(t, v, script)
+        pt, pv = (tuple_ty(fm.params), ("r", list(args))) if fm.params else (None, None)
+        ind = o.layout(pt)[0] if fm.params_indirect else 0
+        self.stats["import_calls"] += 1
+        self.stats["host_buffers"] += len(given)
+        self.stats["leaves_sent"] += count_leaves(ret) if ret else 0
+        resp = g.ask("IMPORT %s %d %s %s %d %s %s %s %s" % (mod, fm.idx, fm.wasm_module.replace(" ", "\x1f"), fm.name.replace(" ", "\x1f"), ind, mode, payload,
+                                                          ",".join(map(str, script)), segs_str(writes)))
+        if resp is None or not resp.startswith("OK"):
+            F.append(Finding("crash", "guest-died", "import call: %s" % (g.proc.last_err if resp is None else resp), "crash:import"))
+            return F, obs
+        r = Guest.fields(resp)
+        evs = parse_events(r.get("ev", ""))
+        obs["events"] = evs
+        if r.get("notes"):
+            F.append(Finding("value", "notes", r["notes"], "notes:" + r["notes"].split(";")[0]))
+        calls = [c.split("|") for c in r.get("calls", "").split(";") if c]
+        obs["calls"] = calls
+        mine = [c for c in calls if c[0] == fm.wasm_module and c[1] == fm.name]
+        if len(mine) != 1:
+            F.append(Finding("value", "import-call-count", "the import was called %d times" % len(mine), "import-call-count:%d" % len(mine)))
+        else:
+            words = [int(x) for x in mine[0][2].split(",")] if mine[0][2] else []
+            nexp = (1 if fm.params_indirect else len(fm.param_flat)) + (1 if fm.result_indirect else 0)
+            if len(words) != nexp:
+                F.append(Finding("value", "import-arity", "core call has %d arguments, expected %d" % (len(words), nexp)))
+            elif fm.params:
+                self.stats["leaves_received"] += sum(count_leaves(a) for a in args)
+                lm, src = ("mem", words[0]) if fm.params_indirect else ("flat", " ".join(str(w) for w in words[:len(fm.param_flat)]))
+                got = o.lift(pt, lm, src, r.get("segs", ""))
+                self._compare(F, "import-param", pt, pv, got, "Rust passed %s, the host received %s")
+                ps = poison_segments(evs, M_CALL_START, M_HOST_ENTER)
+                if ps:
+                    self.stats["uaf_probes"] += 1
+                    got2 = o.lift(pt, lm, src, ";".join(ps + [r.get("segs", "")]))
+                    if got2 != got:
+                        d = diff_path(pt, canon(pt, got), canon(pt, got2)) if (got is not None and got2 is not None) else None
+                        F.append(Finding("memory", "use-after-free", "the lowered parameters point into memory the wrapper freed before calling the import "
+                                         "(the host reads freed blocks): %s" % show(pv), "use-after-free:import-param:" + (class_of_path(d) if d else "trap")))
+        words = [int(x) for x in r["log"].split(",")] if r.get("log") else []
+        if fm.result:
+            try:
+                got = decode(fm.result, words)
+                self._compare(F, "import-result", fm.result, ret, got, "the host returned %s, Rust received %s")
+            except DecodeError as e:
+                F.append(Finding("value", "import-result", "observation log does not parse as the result type: %s (sent %s)" % (e, show(ret)), "import-result:log-unparseable"))
+        F += self._mem_findings(evs, "import call")
+        freed = set(e[1] for e in evs if e[0] == "F")
+        rlabels = alloc_labels(o, fm.result, ret, not fm.result_indirect) if fm.result else []
+        for (a, s, al) in given:
+            if a not in freed:
+                F.append(Finding("memory", "host-buffer-not-taken", "result buffer %d:%d handed to the import wrapper was not released once the result was dropped" % (s, al),
+                                 "host-buffer-not-taken:import-result:" + label_blocks([(s, al)], rlabels)))
+        live1 = self._live()
+        if live1 != live0:
+            leaked = sorted(set(live1) - set(live0))
+            gone = sorted(set(live0) - set(live1))
+            kind = "leak" if leaked else "over-free"
+            plabels = alloc_labels(o, pt, pv, True) if fm.params else []
+            F.append(Finding("memory", kind, "after the import call and dropping its result the guest heap differs: leaked %s, missing %s" % (
+                [(s, a) for _, s, a in leaked], [(s, a) for _, s, a in gone]), "%s:import:%s" % (kind, label_blocks([(s, a) for _, s, a in (leaked or gone)], rlabels + plabels))))
+            obs["leaked"] = leaked
+        return F, obs
+
+    def cleanup(self, baseline):
+        """free whatever is still live beyond `baseline` (after a failed case) so later cases start clean"""
+        try:
+            live = self._live()
+            extra = [b for b in live if b not in set(baseline)]
+            self.g.free(extra)
+        except GuestDied:
+            pass
+
+
+M_CALL_START, M_HOST_ENTER, M_HOST_EXIT, M_CALL_END, M_WALK_END, M_DROP_END = 1, 2, 3, 4, 5, 6
+M_IMPL_ENTER, M_IMPL_WALKED, M_IMPL_BUILT, M_POST_START, M_POST_END, M_BUILD_START = 7, 8, 9, 10, 11, 12
